@@ -475,23 +475,63 @@ func runC12(c *core.Ctx, o Options) {
 		okE := r == `strings.ReplaceAll(filepath.Base(filepath.Clean(outputDirPath)), "-", "_")` || r == `strings.ReplaceAll(filepath.Base(outputDirPath), "-", "_")`
 		c.Check(okE, "e", "Execute", "the package name is the base name of the output directory", ex.Pos(), r, "the package name is derived as "+r+": it depends on where the output directory is located, not only on its name")
 		// (f) prepare's error is returned before the first write
-		var prep, firstWrite *ssa.Call
+		var prep *ssa.Call
+		var writes []*ssa.Call
+		writeFn := c.Func("generator", "Generator.write")
+		// reaches: the function writes a file, directly or through functions of the package
+		memo := map[*ssa.Function]int{}
+		var reaches func(f *ssa.Function) bool
+		reaches = func(f *ssa.Function) bool {
+			if f == nil || len(f.Blocks) == 0 {
+				return false
+			}
+			if f == writeFn {
+				return true
+			}
+			if v, ok := memo[f]; ok {
+				return v == 1
+			}
+			memo[f] = 0
+			found := false
+			an.AllInstrs(f, func(in ssa.Instruction) {
+				if cc := an.CallOf(in); cc != nil {
+					if cal := an.StaticCallee(cc); cal != nil && cal.Pkg == f.Pkg && reaches(cal) {
+						found = true
+					}
+					if cal := an.StaticCallee(cc); cal != nil && cal.Pkg != nil && cal.Pkg.Pkg.Path() == "os" && (cal.Name() == "WriteFile" || cal.Name() == "Create" || cal.Name() == "OpenFile") {
+						found = true
+					}
+				}
+			})
+			if found {
+				memo[f] = 1
+			}
+			return found
+		}
 		an.AllInstrs(ex, func(in ssa.Instruction) {
 			if call, ok := in.(*ssa.Call); ok {
 				if an.CalleeIs(&call.Call, "generator", "Generator.prepare") {
 					prep = call
+					return
 				}
-				if an.CalleeIs(&call.Call, "generator", "Generator.write") && firstWrite == nil {
-					firstWrite = call
+				if cal := an.StaticCallee(&call.Call); cal != nil && reaches(cal) {
+					writes = append(writes, call)
 				}
 			}
 		})
-		okF := prep != nil && firstWrite != nil && an.Dominates(prep, firstWrite)
+		okF := prep != nil && len(writes) > 0
+		for _, w := range writes {
+			if !an.Dominates(prep, w) {
+				okF = false
+			}
+		}
 		if okF {
 			ps, _ := an.EnumPaths(ex, 4096)
 			for _, p := range ps {
-				if p.Passes(firstWrite) && !p.Has(an.Render(prep)+" == nil") {
-					okF = false
+				for _, w := range writes {
+					if p.Passes(w) && !p.Has(an.Render(prep)+" == nil") {
+						okF = false
+					}
 				}
 				if p.Return != nil && p.Has(an.Render(prep)+" != nil") && p.Results[0] != an.Render(prep) {
 					okF = false
